@@ -14,6 +14,10 @@ Definition vtt_case (c : text * list Z * Z * list Z) : bool :=
   let '(content, oracle, code, calls) := c in
   (outcome_code (vtt_run (subs oracle) content) =? code) && text_eqb (bools_code (vtt_calls (subs oracle) content)) calls.
 
+Definition vtt_case_fixed (c : text * list Z * Z * list Z) : bool :=
+  let '(content, oracle, code, calls) := c in
+  (outcome_code (vtt_run_fixed (subs oracle) content) =? code) && text_eqb (bools_code (vtt_calls_fixed (subs oracle) content)) calls.
+
 Definition srt_event_of_code (c : Z) : srt_event :=
   if c =? 0 then EvStart None else if c =? 1 then EvStart (Some ColorAbsent) else if c =? 2 then EvStart (Some ColorNoValue)
   else if c =? 3 then EvStart (Some ColorBad) else if c =? 4 then EvStart (Some ColorGood) else if c =? 5 then EvEnd else EvData.
